@@ -372,7 +372,9 @@ func c09ToleranceReload(c *vlib.Ctx) {
 			if st.reload != "" {
 				_ = a.WriteConfig(mk(st.reload))
 				if !a.Reload() {
-					c.Inconclusive(fmt.Sprintf("C09 tolerance %s: reload to %s refused", k.name, st.reload))
+					// refusing to change the tolerance of a running route is a legitimate answer:
+					// the old tolerance stays in force and the replay must still be refused
+					c.Count("tolerance_reloads_refused", 1)
 				}
 			}
 			for o := 0; o < st.others; o++ {
